@@ -193,19 +193,25 @@ type H265VUI struct {
 	TimeScale                                              uint32 `json:"time_scale"`
 }
 
-// H265SPS is a basic seq_parameter_set_rbsp() (7.3.2.2): no conformance
-// window (so the output size is the coded size), no scaling list data, no
-// extension.
+// H265SPS is a basic seq_parameter_set_rbsp() (7.3.2.2): optional conformance
+// window, no scaling list data, no extension.
 type H265SPS struct {
-	VpsID                       uint8              `json:"vps_id"`
-	MaxSubLayersMinus1          uint8              `json:"max_sub_layers_minus1"` // 0..6
-	TemporalIdNesting           bool               `json:"temporal_id_nesting"`
-	PTL                         H265PTL            `json:"ptl"`
-	SpsID                       uint32             `json:"sps_id"` // 0..15
-	ChromaFormatIdc             uint32             `json:"chroma_format_idc"`
-	SeparateColourPlane         bool               `json:"separate_colour_plane"`
-	Width                       uint32             `json:"width"`  // pic_width_in_luma_samples
-	Height                      uint32             `json:"height"` // pic_height_in_luma_samples
+	VpsID               uint8   `json:"vps_id"`
+	MaxSubLayersMinus1  uint8   `json:"max_sub_layers_minus1"` // 0..6
+	TemporalIdNesting   bool    `json:"temporal_id_nesting"`
+	PTL                 H265PTL `json:"ptl"`
+	SpsID               uint32  `json:"sps_id"` // 0..15
+	ChromaFormatIdc     uint32  `json:"chroma_format_idc"`
+	SeparateColourPlane bool    `json:"separate_colour_plane"`
+	Width               uint32  `json:"width"`  // pic_width_in_luma_samples
+	Height              uint32  `json:"height"` // pic_height_in_luma_samples
+	// conformance window (7.4.3.2.1): offsets in units of SubWidthC / SubHeightC
+	// luma samples; written only when ConfWin is true
+	ConfWin                     bool               `json:"conf_win"`
+	ConfWinL                    uint32             `json:"conf_win_left"`
+	ConfWinR                    uint32             `json:"conf_win_right"`
+	ConfWinT                    uint32             `json:"conf_win_top"`
+	ConfWinB                    uint32             `json:"conf_win_bottom"`
 	BitDepthLumaMinus8          uint32             `json:"bit_depth_luma_minus8"`
 	BitDepthChromaMinus8        uint32             `json:"bit_depth_chroma_minus8"`
 	Log2MaxPocLsbMinus4         uint32             `json:"log2_max_poc_lsb_minus4"`
@@ -247,6 +253,12 @@ func (s *H265SPS) Validate() error {
 	if s.Width == 0 || s.Height == 0 || s.Width%minCb != 0 || s.Height%minCb != 0 {
 		return fmt.Errorf("picture size %dx%d is not a positive multiple of MinCbSizeY %d", s.Width, s.Height, minCb)
 	}
+	if s.ConfWin {
+		sw, sh := s.ChromaUnits()
+		if uint64(sw)*(uint64(s.ConfWinL)+uint64(s.ConfWinR)) >= uint64(s.Width) || uint64(sh)*(uint64(s.ConfWinT)+uint64(s.ConfWinB)) >= uint64(s.Height) {
+			return fmt.Errorf("conformance window empty")
+		}
+	}
 	ctbLog2 := s.Log2MinCbMinus3 + 3 + s.Log2DiffMaxMinCb
 	if ctbLog2 < 4 || ctbLog2 > 6 {
 		return fmt.Errorf("CtbLog2SizeY %d", ctbLog2)
@@ -273,6 +285,31 @@ func (s *H265SPS) Validate() error {
 	return nil
 }
 
+// ChromaUnits returns SubWidthC and SubHeightC (Table 6-1): 2,2 for 4:2:0;
+// 2,1 for 4:2:2; 1,1 for monochrome and 4:4:4 (with or without separate
+// colour planes).
+func (s *H265SPS) ChromaUnits() (subWidthC, subHeightC uint32) {
+	switch s.ChromaFormatIdc {
+	case 1:
+		return 2, 2
+	case 2:
+		return 2, 1
+	}
+	return 1, 1
+}
+
+// OutputSize is the size of the conformance cropping window (7.4.3.2.1): the
+// pictures an H.265 decoder outputs; the coded size when there is no window.
+func (s *H265SPS) OutputSize() (w, h uint32) {
+	w, h = s.Width, s.Height
+	if s.ConfWin {
+		sw, sh := s.ChromaUnits()
+		w -= sw * (s.ConfWinL + s.ConfWinR)
+		h -= sh * (s.ConfWinT + s.ConfWinB)
+	}
+	return
+}
+
 // EncodeNAL returns the SPS NAL unit and the output picture size.
 func (s *H265SPS) EncodeNAL() (nal []byte, width, height uint32, err error) {
 	if err = s.Validate(); err != nil {
@@ -290,7 +327,13 @@ func (s *H265SPS) EncodeNAL() (nal []byte, width, height uint32, err error) {
 	}
 	w.PutUE(s.Width)
 	w.PutUE(s.Height)
-	w.PutFlag(false) // conformance_window_flag: never generated
+	w.PutFlag(s.ConfWin) // conformance_window_flag
+	if s.ConfWin {
+		w.PutUE(s.ConfWinL)
+		w.PutUE(s.ConfWinR)
+		w.PutUE(s.ConfWinT)
+		w.PutUE(s.ConfWinB)
+	}
 	w.PutUE(s.BitDepthLumaMinus8)
 	w.PutUE(s.BitDepthChromaMinus8)
 	w.PutUE(s.Log2MaxPocLsbMinus4)
@@ -388,7 +431,8 @@ func (s *H265SPS) EncodeNAL() (nal []byte, width, height uint32, err error) {
 	w.PutFlag(false) // sps_extension_present_flag
 	w.TrailingBits()
 	nal = append(H265NALHeader(33, 0, 1), EmulationPrevent(w.Bytes())...)
-	return nal, s.Width, s.Height, nil
+	width, height = s.OutputSize()
+	return nal, width, height, nil
 }
 
 // ParseH265SPSSize decodes just enough of an SPS NAL unit (7.3.2.2) to return
